@@ -297,9 +297,31 @@ def encode_stub(cx):
 encode_stub.modifies = ()
 
 
+names_encoding = z3.Function('sftp_names_encoding', z3.SeqSort(sort_of('opaque:SFTPName')), IntS, BytesS)
+
+
 def join_names_stub(cx):
-    """b''.join(name.encode(version) for name in names): bytes, or an Exception from one of the encoders"""
-    return [Out(ret=cx.fresh('bytes', 'names_encoded'))] + local_failures(cx, oserror=False)
+    """b''.join(name.encode(version) for name in names): the concatenated entries names_encoding(names, version)
+    (each entry is SFTPName.encode(name, version), under contract in c14_codecs), or an Exception from an encoder.
+    The list and the version are read from the generator expression itself."""
+    g = cx.args[0] if cx.args else None
+    e = g.payload if isinstance(g, VTag) and g.tag == 'genexp' else None
+    ok = e is not None and len(e.generators) == 1 and not e.generators[0].ifs and \
+        isinstance(e.generators[0].target, ast.Name) and isinstance(e.elt, ast.Call) and \
+        isinstance(e.elt.func, ast.Attribute) and e.elt.func.attr == 'encode' and \
+        isinstance(e.elt.func.value, ast.Name) and e.elt.func.value.id == e.generators[0].target.id and \
+        len(e.elt.args) == 1 and not e.elt.keywords
+    if not ok:
+        raise Unsupported('name list encoding changed shape')
+    rs = cx.ex.ev(e.generators[0].iter, cx.st) + cx.ex.ev(e.elt.args[0], cx.st)
+    if len(rs) != 2 or any(r[0] is not cx.st for r in rs):
+        raise Unsupported('name list encoding: impure list / version expression')
+    names, ver = cx.ex.deref(cx.st, rs[0][1]), rs[1][1]
+    if not isinstance(names, VSeq) or not isinstance(ver, VInt):
+        raise Unsupported('name list encoding: unexpected list / version value')
+    r = cx.fresh('bytes', 'names_encoded')
+    return [Out(ret=r, assume=[r.z == names_encoding(names.z, ver.z)],
+                event=('encode_names', (names, ver, r)))] + local_failures(cx, oserror=False)
 
 
 join_names_stub.modifies = ()
@@ -450,13 +472,69 @@ def ok_status(c):
     return z3.Implies(a[0].z == FXP_STATUS, z3.PrefixOf(be4(FX_OK), a[3].z))
 
 
+def reply_body(c):
+    """the body of a successful reply is the handler's result in the wire format of the SESSION's version
+    (filexfer-02 s7 / -13 s9): HANDLE = string handle; DATA = string data [+ end-of-file byte, v6 only, only when
+    true]; NAME = uint32 count, the count entries [+ end-of-list byte, v6 only, only when true]; ATTRS and the
+    extended replies = the encoding of the result (or of its conversion from a local stat result) for the session's
+    version, by the codecs under contract in c14_codecs"""
+    sends = srv_sends(c)
+    hc = [x for x in c.calls() if x['key'] == 'handler']
+    if len(sends) != 1 or len(hc) != 1 or hc[0]['exc'] is not None or encode_failed(c) or len(sends[0][1]) != 4:
+        return z3.BoolVal(True)
+    a = sends[0][1]
+    rt, body = a[0].z, a[3].z
+    res = hc[0]['ret']
+    ver = c.old('_version')
+    v6 = ver >= 6
+    conj = []
+    if isinstance(res, VBytes):
+        conj.append(z3.Implies(rt == FXP_HANDLE, body == z3.Concat(be4(z3.Length(res.z)), res.z)))
+    elif isinstance(res, VTuple) and len(res.items) == 2 and isinstance(res.items[1], VBool):
+        first, at_end = c.ex.deref(c.new_state, res.items[0]), res.items[1].z
+        end = z3.If(z3.And(at_end, v6), z3.Unit(z3.IntVal(1)), z3.Empty(BytesS))
+        if isinstance(first, VBytes):
+            conj.append(z3.Implies(rt == FXP_DATA, body == z3.Concat(be4(z3.Length(first.z)), first.z, end)))
+        elif isinstance(first, VSeq):
+            conj.append(z3.Implies(rt == FXP_NAME, body == z3.Concat(
+                be4(z3.Length(first.z)), names_encoding(first.z, ver), end)))
+    elif isinstance(res, VRef):
+        enc = c.events('encode_value')
+        conv = [x for x in c.calls() if x['key'].endswith('.from_local')]
+        ok = len(enc) == 1
+        if ok:
+            recv, rest = enc[0][1][0], enc[0][1][1:]
+            src_ok = isinstance(recv, VRef) and (recv.addr == res.addr or (
+                len(conv) == 1 and isinstance(conv[0]['ret'], VRef) and conv[0]['ret'].addr == recv.addr and
+                isinstance(conv[0]['args'][0], VRef) and conv[0]['args'][0].addr == res.addr))
+            conj.append(z3.BoolVal(src_ok))
+            conj.append(body == rest[-1].z)
+            cls = c.new_state.rec(recv).cls
+            if cls in ('SFTPAttrs', 'SFTPVFSAttrs'):
+                # encoded for the session's version
+                conj.append(z3.BoolVal(len(rest) == 2) if len(rest) != 2 else zt(rest[0]) == ver)
+            else:
+                conj.append(z3.BoolVal(len(rest) == 1))
+        conj.append(z3.Implies(z3.Or(rt == FXP_ATTRS, rt == FXP_EXTENDED_REPLY), z3.BoolVal(ok)))
+    return z3.And(conj) if conj else z3.BoolVal(True)
+
+
+# extended requests this server implements and advertises in SSH_FXP_VERSION (OpenSSH PROTOCOL 3.x-4.x names, the
+# filexfer-extensions `copy-data`, asyncssh's own ranges@asyncssh.com); those not in SPEC_EXT_REPLY answer STATUS
+SPEC_EXT_STATUS = [b'posix-rename@openssh.com', b'hardlink@openssh.com', b'fsync@openssh.com',
+                   b'lsetstat@openssh.com', b'copy-data']
+
+
 def known_requests_dispatched(c):
     """a request the protocol defines (and this server advertises) reaches its handler: it is never answered as
-    unsupported without being tried"""
+    unsupported without being tried - plain types 3..23, and SSH_FXP_EXTENDED with one of the advertised names"""
     if c.events('handler'):
         return z3.BoolVal(True)
     t = c.arg('pkttype')
-    return z3.And([t != k for k in sorted(SPEC_REQUESTS)])
+    ok, name = srv_ext_name(c)
+    ext = [z3.Not(z3.And(t == FXP_EXTENDED, ok, name == bytes_const(n)))
+           for n in list(SPEC_EXT_REPLY) + SPEC_EXT_STATUS]
+    return z3.And([t != k for k in sorted(SPEC_REQUESTS)] + ext)
 
 
 def handler_once(c):
@@ -504,7 +582,8 @@ srv_process_packet = Spec(
                               c.old('_version') >= 3, c.old('_version') <= 6),
     ensures=[('exactly-one-reply', exactly_one_reply)],
     always=[('reply-id', reply_id), ('reply-type', reply_type), ('error-status', error_status),
-            ('ok-status', ok_status), ('known-requests-dispatched', known_requests_dispatched),
+            ('ok-status', ok_status), ('reply-body', reply_body),
+            ('known-requests-dispatched', known_requests_dispatched),
             ('handler-at-most-once', handler_once)],
     raises={'CancelledError': only_base_exceptions_escape,
             'SFTPError': send_failed})
@@ -995,6 +1074,10 @@ handler_send_packet = Spec(
 def recv_packet_stub(cx):
     """recv_packet(): one whole framed packet (a well-formed SSHPacket at read position 0), or the stream ended /
     failed (EOFError incl. IncompleteReadError, OSError, SFTPError), or the task is cancelled"""
+    # the precondition of recv_packet (handler_recv_packet.requires, proved below): the session is still open
+    rd = cx.selff('_reader')
+    cx.require('recv_packet-requires-an-open-reader', z3.Not(rd.isnone) if isinstance(rd, VOpt)
+               else z3.BoolVal(rd is not VNone))
     p = cx.fresh('obj:SSHPacket', 'rx')
     r = cx.st.rec(p)
     n = cx.selff('ghost_received')
@@ -1161,22 +1244,32 @@ def _pkt(cx):
     return p, r.fields['_packet'].z, r.fields['_idx'].z, r.fields['_len'].z
 
 
+attrs_ok = z3.Function('sftp_attrs_ok', BytesS, IntS, IntS, BoolS)
+
+
 def attrs_decode_stub(cx):
-    """SFTPAttrs.decode(packet, version): an SFTPAttrs, the read position moved to the end of the attribute
-    block (attrs_end, inside the body); PacketDecodeError if the body ends inside the block; SFTPError
-    (SFTPBadMessage: flags the version does not define / bad text, SFTPOwnerInvalid, SFTPGroupInvalid)"""
+    """SFTPAttrs.decode(packet, version): when the bytes at the read position are a well-formed attribute block of
+    that version (attrs_ok) an SFTPAttrs, the read position moved to the end of the block (attrs_end, inside the
+    body); otherwise PacketDecodeError (the body ends inside the block) or SFTPError (SFTPBadMessage: flags the
+    version does not define / bad text, SFTPOwnerInvalid, SFTPGroupInvalid)"""
     p, data, idx, ln = _pkt(cx)
     if len(cx.args) != 2 or not (isinstance(cx.args[0], VRef) and cx.args[0].addr == p.addr):
         raise Unsupported('SFTPAttrs.decode call changed shape')
-    end = attrs_end(data, idx, cx.args[1].z)
+    ver = cx.args[1].z
+    end = attrs_end(data, idx, ver)
+    ok = attrs_ok(data, idx, ver)
     a = cx.fresh('obj:SFTPAttrs', 'attrs')
     ev = ('attrs-decode', (a, VInt(idx)))
-    return [Out(ret=a, osets=[(p, '_idx', VInt(end))], assume=[end >= idx, end <= ln], event=ev),
-            Out(exc=VExc('PacketDecodeError'), osets=[(p, '_idx', cx.fresh('int', 'idx_at_failure'))]),
-            Out(exc=VExc('SFTPError'), osets=[(p, '_idx', cx.fresh('int', 'idx_at_failure'))])]
+    return [Out(ret=a, osets=[(p, '_idx', VInt(end))], assume=[ok, end >= idx, end <= ln], event=ev),
+            Out(exc=VExc('PacketDecodeError'), osets=[(p, '_idx', cx.fresh('int', 'idx_at_failure'))],
+                assume=[z3.Not(ok)]),
+            Out(exc=VExc('SFTPError'), osets=[(p, '_idx', cx.fresh('int', 'idx_at_failure'))], assume=[z3.Not(ok)])]
 
 
 attrs_decode_stub.modifies = ()
+
+
+names_ok = z3.Function('sftp_names_ok', BytesS, IntS, IntS, IntS, BoolS)
 
 
 def names_listcomp_stub(cx):
@@ -1191,10 +1284,12 @@ def names_listcomp_stub(cx):
     ver = cx.selff('_version').z
     end = names_end(data, idx, count, ver)
     ns = names_of(data, idx, count, ver)
+    ok = names_ok(data, idx, count, ver)       # the bytes at idx are `count` well-formed name entries of that version
     return [Out(ret=VSeq(ns, 'opaque:SFTPName'), osets=[(p, '_idx', VInt(end))],
-                assume=[lo == 0, end >= idx, end <= ln, z3.Length(ns) == z3.If(count > 0, count, 0)]),
-            Out(exc=VExc('PacketDecodeError'), osets=[(p, '_idx', cx.fresh('int', 'idx_at_failure'))]),
-            Out(exc=VExc('SFTPError'), osets=[(p, '_idx', cx.fresh('int', 'idx_at_failure'))])]
+                assume=[ok, lo == 0, end >= idx, end <= ln, z3.Length(ns) == z3.If(count > 0, count, 0)]),
+            Out(exc=VExc('PacketDecodeError'), osets=[(p, '_idx', cx.fresh('int', 'idx_at_failure'))],
+                assume=[z3.Not(ok)]),
+            Out(exc=VExc('SFTPError'), osets=[(p, '_idx', cx.fresh('int', 'idx_at_failure'))], assume=[z3.Not(ok)])]
 
 
 names_listcomp_stub.modifies = ()
@@ -1251,7 +1346,29 @@ def construct_post(c):
     return z3.BoolVal(False)
 
 
-STATUS_STUBS = {'_sftp_error_map[]': error_map_stub, 'exc.decode': may_raise(noop(), 'PacketDecodeError')}
+unknown_names_ok = z3.Function('sftp_unknown_names_ok', BytesS, IntS, BoolS)
+
+
+def error_data_decode_stub(cx):
+    """exc.decode(packet): error-specific data.  Only SSH_FX_UNKNOWN_PRINCIPAL has any (the list of unknown names,
+    read to the end of the body: SFTPUnknownPrincipal.decode); every other class inherits the no-op.  The names are
+    either well-formed strings up to the end of the body (unknown_names_ok) or the decode fails."""
+    exc = cx.recv
+    if not isinstance(exc, VExc) or 'code' not in exc.attrs or len(cx.args) != 1:
+        raise Unsupported('error-specific decode changed shape')
+    p = cx.args[0]
+    r = cx.st.rec(p)
+    data, idx, ln = r.fields['_packet'].z, r.fields['_idx'].z, r.fields['_len'].z
+    code = exc.attrs['code'].z
+    ok = z3.Or(idx == ln, unknown_names_ok(data, idx))      # nothing left: the empty list
+    return [Out(assume=[code != FX_UNKNOWN_PRINCIPAL]),
+            Out(osets=[(p, '_idx', VInt(ln))], assume=[code == FX_UNKNOWN_PRINCIPAL, ok]),
+            Out(exc=VExc('PacketDecodeError'), assume=[code == FX_UNKNOWN_PRINCIPAL, z3.Not(ok)]),
+            Out(exc=VExc('SFTPBadMessage'), assume=[code == FX_UNKNOWN_PRINCIPAL, z3.Not(ok)])]
+
+
+error_data_decode_stub.modifies = ()
+STATUS_STUBS = {'_sftp_error_map[]': error_map_stub, 'exc.decode': error_data_decode_stub}
 STATUS_EXC_ATTRS = {'SFTPError': lambda args, kw: {'code': args[0], 'reason': args[1],
                                                    'lang': args[2] if len(args) > 2 else default_lang()}}
 
@@ -1335,24 +1452,66 @@ def _mk_decoder(name, post, returns, stubs=None, raises=None, **kw):
     return sp
 
 
-decode_handle = _mk_decoder('_process_handle', handle_reply, 'bytes')
-decode_data = _mk_decoder('_process_data', data_reply, 'tuple[bytes,bool]')
+def reply_malformed(kinds):
+    """PacketDecodeError only for a body that is not the reply's layout for the session's version (nothing may follow
+    the fields before v6; v6 replies may carry extension data)"""
+    def post(c):
+        data, idx, ln = _body(c)
+        ver = c.old('_version')
+        m, conj = idx, []
+        for k in kinds:
+            if k == 's':
+                n = unbe(z3.Extract(data, m, 4))
+                conj += [m + 4 <= ln, m + 4 + n <= ln]
+                m = m + 4 + n
+            elif k == 'A':
+                conj += [attrs_ok(data, m, ver), attrs_end(data, m, ver) <= ln]
+                m = attrs_end(data, m, ver)
+            elif k == 'N':
+                cnt = unbe(z3.Extract(data, m, 4))
+                conj += [m + 4 <= ln, names_ok(data, m + 4, cnt, ver), names_end(data, m + 4, cnt, ver) <= ln]
+                m = names_end(data, m + 4, cnt, ver)
+        return z3.Not(z3.And(conj + [z3.Implies(ver < 6, m == ln)]))
+    return post
+
+
+def status_malformed(c):
+    """PacketDecodeError from a status reply only if it is not: uint32 code [string message, string language]
+    [the unknown-names list, for SSH_FX_UNKNOWN_PRINCIPAL], with nothing else before v6"""
+    data, idx, ln = _body(c)
+    ver = c.old('_version')
+    code = unbe(z3.Extract(data, idx, 4))
+    n1 = unbe(z3.Extract(data, idx + 4, 4))
+    n2 = unbe(z3.Extract(data, idx + 8 + n1, 4))
+    m = idx + 12 + n1 + n2
+    texts = z3.And(idx + 8 <= ln, idx + 8 + n1 <= ln, idx + 12 + n1 <= ln, m <= ln)
+    tail_ok = z3.If(z3.And(code == FX_UNKNOWN_PRINCIPAL), z3.Or(m == ln, unknown_names_ok(data, m)),
+                    z3.Implies(ver < 6, m == ln))
+    well = z3.And(idx + 4 <= ln, z3.Or(idx + 4 == ln, z3.And(texts, z3.Or(code == FX_OK, tail_ok),
+                                                             z3.Implies(z3.And(code == FX_OK, ver < 6), m == ln))))
+    return z3.Not(well)
+
+
+decode_handle = _mk_decoder('_process_handle', handle_reply, 'bytes',
+                            raises={'PacketDecodeError': reply_malformed(['s'])})
+decode_data = _mk_decoder('_process_data', data_reply, 'tuple[bytes,bool]',
+                          raises={'PacketDecodeError': reply_malformed(['s'])})
 decode_status = _mk_decoder(
     '_process_status', status_reply, None, stubs=dict(STATUS_STUBS),
     inline={'SFTPError.construct': ('sftp', 'SFTPError.construct')}, exc_attrs=STATUS_EXC_ATTRS,
     globals={'_sftp_error_map': _error_map_global()},
-    raises={'PacketDecodeError': True, 'SFTPBadMessage': True, 'SFTPError': status_raised})
+    raises={'PacketDecodeError': status_malformed, 'SFTPBadMessage': True, 'SFTPError': status_raised})
 decode_status.no_replay = True        # the module-level error table is modelled, not scripted
 decode_names = _mk_decoder(
     '_process_name', names_reply, 'tuple[seq[opaque:SFTPName],bool]',
     stubs={'listcomp SFTPName.decode(packet, self._version)': names_listcomp_stub},
     loops={1: LoopSpec(invariant=lambda c: z3.BoolVal(True))},
-    raises={'PacketDecodeError': True, 'SFTPError': True})
+    raises={'PacketDecodeError': reply_malformed(['N']), 'SFTPError': True})
 decode_names.no_replay = True         # the comprehension is modelled by a stub, natively it is not a call
 decode_attrs = _mk_decoder(
     '_process_attrs', attrs_reply, 'obj:SFTPAttrs',
     stubs={'SFTPAttrs': ret('obj:SFTPAttrs', 'blank_attrs'), 'SFTPAttrs().decode': attrs_decode_stub},
-    raises={'PacketDecodeError': True, 'SFTPError': True})
+    raises={'PacketDecodeError': reply_malformed(['A']), 'SFTPError': True})
 decode_attrs.no_replay = True
 decode_extended = _mk_decoder(
     '_process_extended_reply',
@@ -1400,10 +1559,14 @@ ASSUMPTIONS += [
     'awaited they return a value of their annotated result type or raise PacketDecodeError, SFTPError (with a status '
     'code that fits a uint32, as the SFTPError documentation requires), NotImplementedError, OSError (any errno), '
     'another Exception (ValueError as representative) or are cancelled (CancelledError); they send nothing '
-    'themselves.  Proved separately for each of the 30 handlers in the dispatch table: its decode prefix (the '
-    'statements up to the last use of `packet`) raises only PacketDecodeError / the attribute decoder\'s SFTPError, '
-    'a body shorter than its fields or (before v6) longer raises PacketDecodeError, and (AST scan) no SFTPServer '
-    'callback runs inside the prefix and nothing reads the packet after it.  Not proved: what the part after the '
+    'themselves.  Proved separately for each of the 30 handlers in the dispatch table, against a table of body '
+    'layouts per request and version written from the drafts (REQUEST_LAYOUT): its decode prefix (the statements up '
+    'to the last use of `packet`) completes exactly when the body is the version\'s layout (v6 standard requests: '
+    'begins with it) and then stands behind the last field; it raises PacketDecodeError / the attribute decoder\'s '
+    'SFTPError exactly when it is not (truncated anywhere, or extended before v6); the ATTRS block is decoded with '
+    'the session\'s version; (AST scan) no SFTPServer callback runs inside the prefix and nothing reads the packet '
+    'after it.  Exception: the v6 REALPATH tail (control byte + compose paths) has no tabled layout, only the '
+    'consumption clause.  Not proved: what the part after the '
     'prefix (handle tables, SFTPServer callbacks) returns or raises; SFTPAttrs.decode inside a prefix is a stub '
     '(ends inside the body or raises PacketDecodeError / SFTPError)',
     'client reply decoders: SFTPError.construct, _process_status/_handle/_data/_name/_attrs/_extended_reply are under '
@@ -1419,6 +1582,9 @@ ASSUMPTIONS += [
     'client: fewer than 2^32 requests are outstanding, i.e. the id about to be allocated is not in the waiter '
     'table (precondition id-unique of _send_request / _make_request); writers of _requests: _send_request (store), '
     '_process_packet (pop) are under contract here, _cleanup (fails all waiters, empties the table) under C09.  '
+    'class invariant 3 <= _version <= 6: established by the version exchange (SFTPServerHandler.run / '
+    'SFTPClientHandler.start, under contract: the session continues only with such a version); __init__ stores the '
+    'configured sftp_version, whose validation by the options layer is assumed.  '
     '"Outstanding" includes abandoned requests: by outstanding-until-replied a caller cancelled while waiting leaves '
     'its id in the table until the reply arrives (for ever if the server never answers); after a 2^32 wrap-around '
     'the store would silently replace such an entry (harmless: that waiter is cancelled) - excluded by the precondition',
@@ -1444,6 +1610,10 @@ sftp_error_encode.no_replay = True
 # the prefix reads the packet and no SFTPServer callback is called inside it: callbacks run only on fully decoded
 # bodies.  Requests that exist only in v6 (link, block, unblock: filexfer-13 8.x) have no pre-v6 body layout.
 V6_ONLY_REQUESTS = {FXP_LINK, FXP_BLOCK, FXP_UNBLOCK}
+ASSUMPTIONS.append(
+    'not stated anywhere (and not what the code does): "a request type the negotiated version does not define is '
+    'answered with an error status" - link / block / unblock (v6) and symlink (v3..v5) are dispatched in every '
+    'version; their decode prefixes are proved for every version (no exactness for the v6-only ones)')
 
 
 def _handler_body(fn):
@@ -1478,8 +1648,100 @@ SRV_PREFIX_CLASSES = dict(PACKET_CLASSES, SFTPAttrs={}, **{
 REQUEST_PREFIX_SPECS = {}
 
 
+# Request body layouts per protocol version (filexfer-02 s6, -04/-05 s6-7, -13 s8; OpenSSH PROTOCOL 3.x-4.x and
+# draft-ietf-secsh-filexfer-extensions for the extended requests).  Field kinds: s = string, u32 / u64 = uint,
+# b = byte / boolean, A = ATTRS block of the session's version.  `exact`: nothing may follow the fields (before v6
+# for the standard requests - v6 allows extension data at the end -, always for the extended requests, whose
+# layout is fixed by their name@domain).
+def _std(*kinds):
+    return lambda v: (list(kinds), v < 6)
+
+
+def _ext(*kinds):
+    return lambda v: (list(kinds), True)
+
+
+REQUEST_LAYOUT = {
+    FXP_OPEN: lambda v: (['s', 'u32', 'A'] if v < 5 else ['s', 'u32', 'u32', 'A'], v < 6),
+    FXP_CLOSE: _std('s'), FXP_READ: _std('s', 'u64', 'u32'), FXP_WRITE: _std('s', 'u64', 's'),
+    FXP_LSTAT: lambda v: (['s'] if v < 4 else ['s', 'u32'], v < 6),
+    FXP_STAT: lambda v: (['s'] if v < 4 else ['s', 'u32'], v < 6),
+    FXP_FSTAT: lambda v: (['s'] if v < 4 else ['s', 'u32'], v < 6),
+    FXP_SETSTAT: _std('s', 'A'), FXP_FSETSTAT: _std('s', 'A'), FXP_OPENDIR: _std('s'), FXP_READDIR: _std('s'),
+    FXP_REMOVE: _std('s'), FXP_MKDIR: _std('s', 'A'), FXP_RMDIR: _std('s'),
+    # v6 realpath (string path [byte control [string compose-path ...]]) has a variable tail: only v3..v5 here
+    FXP_REALPATH: lambda v: (['s'], True) if v < 6 else None,
+    FXP_RENAME: lambda v: (['s', 's'] if v < 5 else ['s', 's', 'u32'], v < 6),
+    FXP_READLINK: _std('s'),
+    FXP_SYMLINK: _ext('s', 's'),         # v3..v5 request (replaced by LINK in v6): linkpath and targetpath only
+    FXP_LINK: lambda v: (['s', 's', 'b'], False), FXP_BLOCK: lambda v: (['s', 'u64', 'u64', 'u32'], False),
+    FXP_UNBLOCK: lambda v: (['s', 'u64', 'u64'], False),
+    b'posix-rename@openssh.com': _ext('s', 's'), b'statvfs@openssh.com': _ext('s'), b'fstatvfs@openssh.com': _ext('s'),
+    b'hardlink@openssh.com': _ext('s', 's'), b'fsync@openssh.com': _ext('s'),
+    b'lsetstat@openssh.com': _std('s', 'A'), b'limits@openssh.com': _ext(),
+    b'copy-data': _ext('s', 'u64', 'u64', 's', 'u64'), b'ranges@asyncssh.com': _ext('s', 'u64', 'u64'),
+}
+VERSION_DEPENDENT = {FXP_OPEN, FXP_LSTAT, FXP_STAT, FXP_FSTAT, FXP_REALPATH, FXP_RENAME}
+
+
+def layout_fits(data, idx, ln, kinds, ver):
+    """(the bytes from idx are the fields `kinds`, each complete inside the body; position behind the last field)"""
+    conj, m = [], idx
+    for k in kinds:
+        if k == 's':
+            n = unbe(z3.Extract(data, m, 4))
+            conj += [m + 4 <= ln, m + 4 + n <= ln]
+            m = m + 4 + n
+        elif k == 'A':
+            conj += [attrs_ok(data, m, ver), attrs_end(data, m, ver) <= ln]
+            m = attrs_end(data, m, ver)
+        else:
+            w = {'u32': 4, 'u64': 8, 'b': 1}[k]
+            conj.append(m + w <= ln)
+            m = m + w
+    return (z3.And(conj) if conj else z3.BoolVal(True)), m
+
+
 def _mk_request_prefix(key, name):
-    v6_only = key in V6_ONLY_REQUESTS
+    def layout(c):
+        """(well-formed, end) of the request body for the session's version, None where no layout is tabled"""
+        r = c.old_state.rec(c.argv('packet'))
+        data, idx, ln = r.fields['_packet'].z, r.fields['_idx'].z, r.fields['_len'].z
+        ver = c.old('_version')
+        lay = REQUEST_LAYOUT.get(key)
+        cv = concrete_int(c.oldv('_version'))
+        if lay is None:
+            return None
+        if cv is not None:
+            res = lay(cv)
+            if res is None:
+                return None
+            fits, end = layout_fits(data, idx, ln, res[0], ver)
+            return z3.And(fits, z3.Implies(z3.BoolVal(res[1]), end == ln)), end
+        # version-independent field list; exactness may still depend on the version (v < 6)
+        kinds = lay(3)[0]
+        fits, end = layout_fits(data, idx, ln, kinds, ver)
+        exact = z3.BoolVal(True) if lay(6)[1] else (ver < 6 if lay(3)[1] else z3.BoolVal(False))
+        return z3.And(fits, z3.Implies(exact, end == ln)), end
+
+    def accepted_only_if_well_formed(c):
+        """the prefix completes only for a body that is exactly the version's layout (v6: begins with it), and then
+        the read position is behind the last field: no truncated body is accepted"""
+        lw = layout(c)
+        if lw is None:
+            return z3.BoolVal(True)
+        r = c.new_state.rec(c.argv('packet'))
+        return z3.And(lw[0], r.fields['_idx'].z == lw[1])
+
+    def rejected_only_if_malformed(c):
+        """PacketDecodeError / SFTPError only for a body that is NOT the version's layout: no well-formed request is
+        answered as a bad message"""
+        lw = layout(c)
+        return z3.BoolVal(True) if lw is None else z3.Not(lw[0])
+
+    cases = None
+    if key in VERSION_DEPENDENT:
+        cases = [(f'v{v}', {'_version': v}) for v in (3, 4, 5, 6)]
     sp = Spec(
         PROP, 'sftp', 'SFTPServerHandler.' + name, self_class='SFTPServerHandler',
         params=dict(packet='obj:SSHPacket'), classes=SRV_PREFIX_CLASSES,
@@ -1487,13 +1749,15 @@ def _mk_request_prefix(key, name):
         stubs={'SFTPAttrs.decode': attrs_decode_stub},
         loops={1: LoopSpec(invariant=lambda c: packet_wf(c, c.argv('packet')))},
         local_types={'compose_paths': 'seq[bytes]'},
-        requires=lambda c: z3.And(packet_wf(c, c.argv('packet')), c.old('_version') >= (6 if v6_only else 3),
-                                  c.old('_version') <= 6),
-        ensures=[('whole-body-consumed-before-v6', whole_body_consumed)],
-        raises={'PacketDecodeError': True,
-                # only the attribute block decoder (undefined flags, bad owner / group / MIME text) and the v6
-                # realpath control byte check report a malformed body as an SFTPError (-> that error's status)
-                'SFTPError': lambda c: z3.BoolVal(True)})
+        requires=lambda c: z3.And(packet_wf(c, c.argv('packet')), c.old('_version') >= 3, c.old('_version') <= 6),
+        ensures=[('whole-body-consumed-before-v6', whole_body_consumed if key not in V6_ONLY_REQUESTS
+                  else (lambda c: z3.BoolVal(True))),
+                 ('accepted-only-if-body-is-the-version-layout', accepted_only_if_well_formed)],
+        raises={'PacketDecodeError': rejected_only_if_malformed,
+                # the attribute block decoder (undefined flags, bad owner / group / MIME text); the v6 realpath
+                # control byte check (SFTPInvalidParameter) is the one SFTPError outside the tabled layouts
+                'SFTPError': rejected_only_if_malformed},
+        cases=cases)
     sp.no_replay = True       # a region of the handler: the whole real function cannot be replayed against it
     REQUEST_PREFIX_SPECS[name] = sp
     return sp
@@ -1589,6 +1853,142 @@ def scan_error_encoders():
     return {'name': 'C14.sftp.SFTPError#scan(every-subclass-overriding-encode-is-under-contract)',
             'verdict': 'proved' if not stray else 'refuted', 'backend': 'AST scan', 'detail': stray,
             'overriding': sorted(over), 'replayed': False}
+
+
+# ------------------------------------------------------------------------------------------------ extended replies
+# _process_extended_reply hands the reply packet to the caller; these callers are the glue: the request goes out
+# under the extension's name, the reply is decoded by that extension's codec (under contract in c14_codecs) from the
+# position it was delivered at, and nothing may follow it (the extended replies have a fixed layout).
+codec_end = z3.Function('sftp_codec_end', BytesS, IntS, IntS)
+
+
+def ext_request_stub(cx):
+    p = cx.fresh('obj:SSHPacket', 'ext_reply')
+    r = cx.st.rec(p)
+    wf = [r.fields['_idx'].z >= 0, r.fields['_idx'].z <= r.fields['_len'].z,
+          r.fields['_len'].z == z3.Length(r.fields['_packet'].z)]
+    ev = ('request', tuple(cx.args))
+    return [Out(ret=p, assume=wf, event=ev + (p, VInt(r.fields['_idx'].z))), Out(exc=VExc('SFTPError'), event=ev)]
+
+
+ext_request_stub.modifies = ()
+
+
+def codec_decode_stub(cls, typ):
+    def stub(cx):
+        p = cx.args[0]
+        r = cx.st.rec(p)
+        data, idx, ln = r.fields['_packet'].z, r.fields['_idx'].z, r.fields['_len'].z
+        end = codec_end(data, idx)
+        out = cx.fresh(typ, 'decoded_' + cls)
+        return [Out(ret=out, osets=[(p, '_idx', VInt(end))], assume=[end >= idx, end <= ln],
+                    event=('codec-decode', (cls, p, VInt(idx), out) + tuple(cx.args[1:]))),
+                Out(exc=VExc('PacketDecodeError'))]
+    stub.modifies = ()
+    return stub
+
+
+def _mk_ext_caller(fname, ext_name, codec, params, returns_value, versioned):
+    def post(c):
+        reqs = c.events('request')
+        decs = c.events('codec-decode')
+        if not reqs:
+            return z3.BoolVal(not decs)        # extension not offered by the server: no request, nothing decoded
+        if len(reqs) != 1 or len(decs) != 1 or len(reqs[0]) < 4:
+            return z3.BoolVal(False)
+        args, p, idx0 = reqs[0][1], reqs[0][-2], reqs[0][-1]
+        cls, dp, didx, out = decs[0][1][:4]
+        r = c.new_state.rec(p)
+        conj = [z3.BoolVal(cls == codec and isinstance(dp, VRef) and dp.addr == p.addr),
+                c.eq(args[0], VBytes(ext_name)), didx.z == idx0.z,
+                r.fields['_idx'].z == r.fields['_len'].z]
+        if versioned:
+            extra = decs[0][1][4:]
+            conj.append(z3.BoolVal(len(extra) == 1) if len(extra) != 1 else zt(extra[0]) == c.old('_version'))
+        if returns_value:
+            conj.append(c.eq(c.result_v, out))
+        return z3.And(conj)
+    sp = Spec(
+        PROP, 'sftp', 'SFTPClientHandler.' + fname, self_class='SFTPClientHandler', params=params,
+        classes={'SFTPClientHandler': {'_version': 'int', '_supports_statvfs': 'bool', '_supports_fstatvfs': 'bool',
+                                       '_supports_limits': 'bool', '_supports_ranges': 'bool', 'limits': 'obj:SFTPLimits'},
+                 'SSHPacket': PACKET_CLASSES['SSHPacket'],
+                 'SFTPLimits': {f: 'int' for f in ('max_packet_len', 'max_read_len', 'max_write_len', 'max_open_handles')},
+                 'SFTPVFSAttrs': {}, 'SFTPRanges': {}},
+        inline=dict(PACKET_INLINE), truthy=PACKET_TRUTHY,
+        stubs={'self._make_request': ext_request_stub, '*.log': noop(),
+               codec + '.decode': codec_decode_stub(codec, 'obj:' + codec),
+               'SFTPRanges': ret('obj:SFTPRanges', 'whole_range')},
+        requires=lambda c: z3.And(c.old('_version') >= 3, c.old('_version') <= 6,
+                                  *[z3.And(c.arg(k) >= 0, c.arg(k) < 2 ** 64) for k, t in params.items() if t == 'int']),
+        ensures=[('reply decoded by the extension\'s codec from where it was delivered, nothing follows', post)],
+        raises={'SFTPError': True, 'PacketDecodeError': True})
+    sp.no_replay = True
+    return sp
+
+
+ext_statvfs = _mk_ext_caller('statvfs', b'statvfs@openssh.com', 'SFTPVFSAttrs', dict(path='bytes'), True, True)
+ext_fstatvfs = _mk_ext_caller('fstatvfs', b'fstatvfs@openssh.com', 'SFTPVFSAttrs', dict(handle='bytes'), True, True)
+ext_limits = _mk_ext_caller('request_limits', b'limits@openssh.com', 'SFTPLimits', {}, False, False)
+ext_ranges = _mk_ext_caller('request_ranges', b'ranges@asyncssh.com', 'SFTPRanges',
+                            dict(handle='bytes', offset='int', length='int'), False, False)
+
+
+# ------------------------------------------------------------------------------------------------ version exchange
+# `3 <= _version <= 6` is the class invariant every contract above relies on (requires).  Its writers: __init__
+# (the configured sftp_version, validated by the connection options - assumed), SFTPClientHandler.start and
+# SFTPServerHandler.run (the version exchange).  The exchange is under contract here: whenever it lets the session
+# continue, the negotiated version is one this implementation speaks (filexfer-02 s4: "the server responds with the
+# lowest of its own and the client's version"; a version below 3 is not implemented: the session must end).
+def _up_to_version_assignment(fn):
+    for k, s_ in enumerate(fn.body):
+        if isinstance(s_, ast.Assign) and any(isinstance(t, ast.Attribute) and t.attr == '_version' for t in s_.targets):
+            return [x for x in fn.body[:k + 1] if not (isinstance(x, ast.Expr) and isinstance(x.value, ast.Constant))]
+    raise Unsupported('no assignment to self._version')
+
+
+def version_invariant(c):
+    return z3.And(c.new('_version') >= 3, c.new('_version') <= 6)
+
+
+def exchange_recv_stub(cx):
+    p = cx.fresh('obj:SSHPacket', 'first_packet')
+    r = cx.st.rec(p)
+    return [Out(ret=p, assume=[r.fields['_idx'].z == 0, r.fields['_len'].z == z3.Length(r.fields['_packet'].z)],
+                event=('recv', (p,))),
+            Out(exc=VExc('IncompleteReadError')), Out(exc=VExc('SFTPError')), Out(exc=VExc('CancelledError'))]
+
+
+exchange_recv_stub.modifies = ()
+EXCHANGE_CLASSES = dict(PACKET_CLASSES, Reader={}, Writer={})
+
+server_version_exchange = Spec(
+    PROP, 'sftp', 'SFTPServerHandler.run', self_class='SFTPServerHandler',
+    classes=dict(EXCHANGE_CLASSES, SFTPServerHandler={'_version': 'int', '_reader': 'opt[obj:Reader]'}),
+    inline=dict(PACKET_INLINE), truthy=PACKET_TRUTHY, region=_up_to_version_assignment,
+    stubs={'self.recv_packet': exchange_recv_stub, 'self.log_received_packet': noop(), 'self._log_extensions': noop(),
+           'self._cleanup': noop('cleanup')},
+    loops={1: LoopSpec(invariant=lambda c: packet_wf(c, c.localv('packet')))},
+    local_types={'rcvd_extensions': 'seq[tuple[bytes,bytes]]'},
+    # the configured version (constructor argument, validated by the options layer)
+    requires=lambda c: z3.And(c.old('_version') >= 3, c.old('_version') <= 6, z3.Not(c.oldv('_reader').isnone)),
+    ensures=[('session continues only with a version in 3..6', lambda c: z3.Or(
+        z3.BoolVal(len(c.events('cleanup')) == 1), version_invariant(c)))],
+    raises={'IncompleteReadError': True, 'CancelledError': True})
+server_version_exchange.no_replay = True
+
+client_version_exchange = Spec(
+    PROP, 'sftp', 'SFTPClientHandler.start', self_class='SFTPClientHandler',
+    classes=dict(EXCHANGE_CLASSES, SFTPClientHandler={'_version': 'int', '_reader': 'opt[obj:Reader]'}),
+    inline=dict(PACKET_INLINE), truthy=PACKET_TRUTHY, region=_up_to_version_assignment,
+    stubs={'self.recv_packet': may_raise(exchange_recv_stub, 'ConnectionLost'), 'self.log_received_packet': noop(),
+           'self._log_extensions': noop(), 'self.send_packet': cli_send_packet_stub},
+    loops={1: LoopSpec(invariant=lambda c: packet_wf(c, c.localv('resp')))},
+    local_types={'rcvd_extensions': 'seq[tuple[bytes,bytes]]'},
+    requires=lambda c: z3.And(c.old('_version') >= 3, c.old('_version') <= 6, z3.Not(c.oldv('_reader').isnone)),
+    ensures=[('session continues only with a version in 3..6', version_invariant)],
+    raises={'SFTPBadMessage': True, 'SFTPConnectionLost': True, 'SFTPError': True, 'CancelledError': True})
+client_version_exchange.no_replay = True
 
 
 # codec contracts (SFTPLimits / SFTPVFSAttrs / SFTPName / SFTPAttrs encode + decode against enc_spec) live in a
